@@ -21,6 +21,7 @@ _annotated_metric_function.py:78-108, _disaggregated_result.py, _fairness_metric
 The base metrics themselves are the ones of `Model/BaseMetrics.lean` (imported read-only).
 -/
 import FairModel.Model.BaseMetrics
+import FairModel.Generated.AggregateSpec
 
 namespace Weights
 open BaseMetrics
@@ -177,14 +178,29 @@ structure Frame where
   ratioOverall : XR
 deriving Repr, DecidableEq
 
-/-- everything `MetricFrame` derives from the per-group values and the overall value -/
+/-- `apply_grouping("min" / "max")` on finite per-group values -/
+def groupL : Grouping → List Rat → Rat
+  | .min => minL
+  | .max => maxL
+
+/-- `ratios.min()` / `.max()` (NaN skipped) of the `to_overall` ratios -/
+def xgroupSkip : Grouping → List XR → XR
+  | .min => xminSkip
+  | .max => Grouping.max.apply
+
+/-- everything `MetricFrame` derives from the per-group values and the overall value.  WHICH extreme each aggregate takes
+    (`difference`: `(mf - subtrahend).abs().max()` with subtrahend `apply_grouping("min")` resp. the overall value;
+    `ratio`: `apply_grouping("min") / apply_grouping("max")` resp. `ratios.min()`) is read from
+    `Generated/AggregateSpec.lean` (lifter `aggregate.py`); `C11.src_aggregate_composition` is the closed form on the
+    pinned source -/
 def aggregate (ks : List Int) (vals : List Rat) (ov : Rat) : Frame :=
   { keys := ks, byGroup := vals, overall := ov,
     gmin := minL vals, gmax := maxL vals,
-    diffBetween := maxL (vals.map (fun v => rabs (v - minL vals))),
-    diffOverall := maxL (vals.map (fun v => rabs (v - ov))),
-    ratioBetween := xdiv (minL vals) (maxL vals),
-    ratioOverall := xminSkip (vals.map (fun v => subOne (xdiv v ov))) }
+    diffBetween := groupL AggregateSpec.diffAgg
+      (vals.map (fun v => rabs (v - groupL AggregateSpec.diffBetweenSubtrahend vals))),
+    diffOverall := groupL AggregateSpec.diffAgg (vals.map (fun v => rabs (v - ov))),
+    ratioBetween := xdiv (groupL AggregateSpec.ratioBetweenNum vals) (groupL AggregateSpec.ratioBetweenDen vals),
+    ratioOverall := xgroupSkip AggregateSpec.ratioOverallAgg (vals.map (fun v => subOne (xdiv v ov))) }
 
 def collect : List (Int × Except Err Rat) → Except Err (List Rat)
   | [] => .ok []
